@@ -56,7 +56,8 @@ func IsInvalidRequestError(err error) bool {
 	return errors.Is(err, ErrMissingPartitionKey) ||
 		errors.Is(err, ErrMissingSequenceDeltas) ||
 		errors.Is(err, ErrSequenceDeltaIsZero) ||
-		errors.Is(err, ErrInvalidSequenceKey)
+		errors.Is(err, ErrInvalidSequenceKey) ||
+		errors.Is(err, ErrSequenceOverflow)
 }
 
 const (
